@@ -29,6 +29,9 @@ def names? : Sexp → Option Names
 
 partial def tree? : Sexp → Option (TD Nat)
   | .list [.atom "leaf", .list sh] => do let s ← nats? sh; pure (.leaf (arange s))
+  | .list [.atom "leaf", .list sh, off] => do
+      let s ← nats? sh; let o ← asNat? off
+      pure (.leaf ⟨s, fun c => ravel c s + o⟩)
   | .list (.atom "node" :: .list bs :: nm :: es) => do
     let bs ← nats? bs
     let nm ← names? nm
@@ -117,6 +120,16 @@ def handleC02 (cmd : String) (args : List Sexp) : Option Sexp :=
         | .error e => pure (C02D.errSexp e)
         | .ok res => pure (tagged "ok" [C02D.treeSexp res])
       | _ => pure (C02D.errSexp .type)
+  | "c02.stack", d :: trees => do
+      let d ← asInt? d; let tds ← trees.mapM C02D.tree?
+      match tdStack d tds with
+      | .error e => pure (C02D.errSexp e)
+      | .ok r => pure (tagged "ok" [C02D.treeSexp r])
+  | "c02.cat", d :: trees => do
+      let d ← asInt? d; let tds ← trees.mapM C02D.tree?
+      match tdCat d tds with
+      | .error e => pure (C02D.errSexp e)
+      | .ok r => pure (tagged "ok" [C02D.treeSexp r])
   | "c02.torch_repeat", [.list reps, .list sh] => do
       let reps ← nats? reps; let sh ← nats? sh
       pure (tagged "ok" [C02D.tensorSexp ((arange sh).repeat reps)])
